@@ -143,7 +143,8 @@ def parse_graphic_sequence(
     if isinstance(sequence, str):
         items = [item.strip() for item in sequence.split(ansi_sep)]
     else:
-        items = sequence
+        # Work on a copy: the caller's list is not to be modified
+        items = list(sequence)
     # Attempt to make each value an integer
     for idx, value in enumerate(items):
         if value == '':
